@@ -277,6 +277,33 @@ def well_shaped(ln):
     return True
 
 
+def exact_kernel(m):
+    """one block-Gibbs step v -> v' from the exact conditionals at the lattice point m"""
+    import numpy as np
+    nv, nh, na, B = m["nv"], m["nh"], m["na"], m["B"]
+    vr, hr, ar = lattice.rows(nv), lattice.rows(nh), lattice.rows(na) if na else [[]]
+    K = np.zeros((2 ** nv, 2 ** nv))
+    for iv, v in enumerate(vr):
+        for h in hr:
+            ph = 1.0
+            for j in range(nh):
+                p = float(sig(B, m["c"][j] + sum(m["W"][j][i] * v[i] for i in range(nv))))
+                ph *= p if h[j] else 1 - p
+            for a in ar:
+                pa = 1.0
+                for k in range(na):
+                    p = float(sig(B, m["d"][k] + sum(m["U"][k][i] * v[i] for i in range(nv))))
+                    pa *= p if a[k] else 1 - p
+                for iw, w in enumerate(vr):
+                    pv = 1.0
+                    for i in range(nv):
+                        p = float(sig(B, m["b"][i] + sum(h[j] * m["W"][j][i] for j in range(nh))
+                                      + sum(a[k] * m["U"][k][i] for k in range(na))))
+                        pv *= p if w[i] else 1 - p
+                    K[iv, iw] += ph * pa * pv
+    return K
+
+
 def empirical_law(chk, rng, seed):
     """auxiliary: k-step law of 40000 parallel chains against K^k (exact conditionals)."""
     import numpy as np
@@ -286,26 +313,8 @@ def empirical_law(chk, rng, seed):
         m = small_model(rng, kind)
         s, rbm = build(m, False, rng)
         nv, nh, na, B = m["nv"], m["nh"], m["na"], m["B"]
-        vr, hr, ar = lattice.rows(nv), lattice.rows(nh), lattice.rows(na) if na else [[]]
-        K = np.zeros((2 ** nv, 2 ** nv))
-        for iv, v in enumerate(vr):
-            for h in hr:
-                ph = 1.0
-                for j in range(nh):
-                    p = float(sig(B, m["c"][j] + sum(m["W"][j][i] * v[i] for i in range(nv))))
-                    ph *= p if h[j] else 1 - p
-                for a in ar:
-                    pa = 1.0
-                    for k in range(na):
-                        p = float(sig(B, m["d"][k] + sum(m["U"][k][i] * v[i] for i in range(nv))))
-                        pa *= p if a[k] else 1 - p
-                    for iw, w in enumerate(vr):
-                        pv = 1.0
-                        for i in range(nv):
-                            p = float(sig(B, m["b"][i] + sum(h[j] * m["W"][j][i] for j in range(nh))
-                                          + sum(a[k] * m["U"][k][i] for k in range(na))))
-                            pv *= p if w[i] else 1 - p
-                        K[iv, iw] += ph * pa * pv
+        vr = lattice.rows(nv)
+        K = exact_kernel(m)
         eps = ((2 ** nv * 0.6931 + 20.8) / (2 * n)) ** 0.5          # false-alarm probability <= 1e-9
         for k in (1, 2, 3):
             start = rng.randrange(2 ** nv)
@@ -320,6 +329,62 @@ def empirical_law(chk, rng, seed):
                 chk.violation("law:%s:k-step-law" % kind, dict(model=m, k=k, start=start, tv=tv, eps=eps,
                                                                 empirical=emp.tolist(), exact=law.tolist()))
     chk.extra["law_chains"] = n
+
+
+def composition(chk, rng, seed):
+    """Chains continued across calls: k1 steps and then k2 steps in a second call follow K^(k1+k2) (fresh,
+    independent noise in every call), whether the first call's result is passed on or the caller's tensor is
+    advanced in place; and two calls from identical start states do not return the same 64 x n fair bits."""
+    import numpy as np
+    from qucumber.nn_states import PositiveWaveFunction, ComplexWaveFunction, DensityMatrix
+    torch.manual_seed(seed + 17)
+    # (a) two calls from clones of one start state: 64 rows of near-fair bits coincide with probability < 2^-100
+    for typ in ("positive", "complex", "density"):
+        st = (PositiveWaveFunction(3, 2, gpu=False) if typ == "positive" else ComplexWaveFunction(3, 2, gpu=False)
+              if typ == "complex" else DensityMatrix(3, 2, 2, gpu=False))
+        with torch.no_grad():
+            for net in st.networks:
+                for p in getattr(st, net).parameters():
+                    p.copy_(0.3 * torch.randn_like(p))
+        start = torch.zeros(64, 3, dtype=torch.double)
+        for how in ("sample", "gibbs_steps"):
+            if how == "sample":
+                r1 = st.sample(k=2, initial_state=start.clone())
+                r2 = st.sample(k=2, initial_state=start.clone())
+            else:
+                r1 = st.rbm_am.gibbs_steps(2, start.clone())
+                r2 = st.rbm_am.gibbs_steps(2, start.clone())
+            chk.evaluations += 1
+            if torch.equal(r1, r2):
+                chk.violation("law:%s:calls-replay-the-same-noise" % typ,
+                              dict(call=how, why="two successive calls from identical start states returned the same 64 x 3 bits"))
+    # (b) composition: k1 then k2 in separate calls against K^(k1+k2)
+    n = 40000
+    for kind in ("plain", "purif"):
+        m = small_model(rng, kind)
+        s, rbm = build(m, False, rng)
+        nv = m["nv"]
+        K = exact_kernel(m)
+        vr = lattice.rows(nv)
+        eps = ((2 ** nv * 0.6931 + 20.8) / (2 * n)) ** 0.5          # false-alarm probability <= 1e-9
+        for k1, k2, inplace in ((1, 1, False), (1, 2, True), (2, 1, True)):
+            startk = rng.randrange(2 ** nv)
+            buf = torch.tensor([vr[startk]] * n, dtype=torch.double)
+            if inplace:
+                rbm.gibbs_steps(k1, buf, overwrite=True)
+                rbm.gibbs_steps(k2, buf, overwrite=True)
+                out = buf
+            else:
+                out = rbm.gibbs_steps(k2, rbm.gibbs_steps(k1, buf))
+            codes = (out * torch.tensor([2 ** (nv - 1 - i) for i in range(nv)], dtype=torch.double)).sum(1).long()
+            emp = torch.bincount(codes, minlength=2 ** nv).double().numpy() / n
+            law = np.linalg.matrix_power(K, k1 + k2)[startk]
+            tv = 0.5 * abs(emp - law).sum()
+            chk.evaluations += 1
+            if tv > eps:
+                chk.violation("law:%s:composition-across-calls" % kind,
+                              dict(model=m, k1=k1, k2=k2, in_place=inplace, start=startk, tv=tv, eps=eps,
+                                   empirical=emp.tolist(), exact=law.tolist()))
 
 
 def run(tier, seed):
@@ -457,6 +522,7 @@ def run(tier, seed):
     chk.sample(dict(trace_model=lines[0]["m"], events=lines[0]["ev"][:4]))
     # ---- (3) auxiliary statistical test
     empirical_law(chk, rng, seed)
+    composition(chk, rng, seed)
     chk.assumptions += ["torch.bernoulli is a faithful Bernoulli sampler (auxiliary law test only)",
                         "lattice parameters; trace models restricted so that conditionals fit 32-bit fixed point",
                         "double-precision start states (overwrite applies to tensors already on the RBM's device/dtype)"]
